@@ -30,7 +30,8 @@ func main() {
 			}
 			var wg sync.WaitGroup
 			start := make(chan struct{})
-			for _, ops := range sc.Plan(im) {
+			plans := sc.Plan(im)
+			for _, ops := range plans[:len(sc.Threads)] {
 				ops := ops
 				wg.Add(1)
 				go func() {
@@ -43,6 +44,9 @@ func main() {
 			}
 			close(start)
 			wg.Wait()
+			for _, po := range plans[len(sc.Threads)] {
+				po.Run(im)
+			}
 		}
 	}
 }
